@@ -87,7 +87,9 @@ def replay_cases(chk, binary, cases, label, parts=None, timeout=1500):
             skipped += int(summ["skipped"])
             for k in ("stack0", "stack1", "stack2"):
                 stacks[k] = max(stacks.get(k, 0), int(summ.get(k, 0)))
-        elif rc not in (0, 1) and not any(p[0].startswith(f"{label}: CRASH") for p in problems):
+        elif not any(p[0].startswith(f"{label}: CRASH") for p in problems):
+            # no SUMMARY line: the harness did not finish, whatever the exit code (an UndefinedBehaviorSanitizer
+            # report aborts with exit code 1 and prints nothing on stdout)
             problems.append((f"{label}: harness died rc={rc}: {out[-1200:]}", None))
         os.remove(f)
     stacks["by_tag"] = stack_by_tag
